@@ -466,6 +466,72 @@ fn quals_step(q: &mut Qualifiers, a: &[&str]) -> Result<String, String> {
             o.push(']');
             o
         },
+        "ends" => {
+            // next() / next_back() alternately; the iterator's len() / size_hint() must count down with it
+            let mut it = q.iter();
+            let mut left = q.len();
+            let mut bad = it.len() != left || it.size_hint() != (left, Some(left));
+            let mut o = String::from("[");
+            let mut front = true;
+            let mut first = true;
+            loop {
+                let x = if front { it.next() } else { it.next_back() };
+                front = !front;
+                match x {
+                    None => break,
+                    Some((k, v)) => {
+                        left = left.saturating_sub(1);
+                        bad = bad || it.len() != left || it.size_hint() != (left, Some(left));
+                        if !first {
+                            o.push(',');
+                        }
+                        first = false;
+                        write!(o, "{}={}", h(k.as_str()), h(v)).unwrap();
+                    },
+                }
+            }
+            bad = bad || it.next().is_some() || it.next_back().is_some();
+            // the same through IterMut
+            let mut keys_mut = Vec::new();
+            {
+                let n = q.len();
+                let mut im = q.iter_mut();
+                let mut left = n;
+                let mut front = true;
+                bad = bad || im.len() != left;
+                loop {
+                    let x = if front { im.next() } else { im.next_back() };
+                    front = !front;
+                    match x {
+                        None => break,
+                        Some((k, _)) => {
+                            left = left.saturating_sub(1);
+                            bad = bad || im.len() != left || im.size_hint() != (left, Some(left));
+                            keys_mut.push(k.as_str().to_string());
+                        },
+                    }
+                }
+            }
+            o.push(']');
+            let keys: Vec<String> = {
+                let mut it = q.iter();
+                let mut ks = Vec::new();
+                let mut front = true;
+                loop {
+                    let x = if front { it.next() } else { it.next_back() };
+                    front = !front;
+                    match x {
+                        None => break,
+                        Some((k, _)) => ks.push(k.as_str().to_string()),
+                    }
+                }
+                ks
+            };
+            if keys != keys_mut {
+                bad = true;
+            }
+            format!("{}{}", o, if bad { "!len" } else { "" })
+        },
         "imut" => {
             let x = unh(arg(a, 1)?)?;
             let mut n = 0;
